@@ -117,6 +117,58 @@ def registries(ctx):
     return r1, r2
 
 
+def raw_state_rule(ctx, family):
+    """E3.raw-state: a constructor parameter that is handed on to the kernel constructor as a member proposition may be a `str`
+    (AtLeast.__init__ accepts ids and turns them into variables in `self.propositions`). An attribute that stores such a
+    parameter unconverted (`self.X = param`) holds a str for those calls, so a method invoked on `self.X` later
+    (`self.X.to_json()`, `.negate()`, ...) raises AttributeError: the model cannot be serialised."""
+    P = ctx.program
+    obs = []
+    n = 0
+    for c in sorted(family, key=lambda c: c.qualname):
+        init = c.methods.get("__init__")
+        if init is None:
+            continue
+        t = T.norm(T.FuncLower(P, init).term())
+        params = [p for p in init.params[1:]]
+        # parameters passed positionally / as *members to a constructor of the family
+        member_params = set()
+        for x in T.walk(t):
+            if x[0] == 'call' and x[1][0] == 'glob' and x[1][1].endswith(".__init__") and x[1][1].rsplit(".", 1)[0] in P.classes:
+                for _, v in x[3]:
+                    for y in T.walk(v):
+                        if y[0] == 'var' and y[1] in params:
+                            member_params.add(y[1])
+        stored_raw = {}
+        for x in T.walk(t):
+            if x[0] == 'setattr' and x[1] == T.V(init.params[0]) and x[3][0] == 'var' and x[3][1] in member_params:
+                stored_raw[x[2]] = x[3][1]
+        for attr_name, prm in sorted(stored_raw.items()):
+            users = []
+            for m in c.methods.values():
+                if m is init:
+                    continue
+                for node in ast.walk(m.node):
+                    if isinstance(node, ast.Call) and isinstance(node.func, ast.Attribute) and isinstance(node.func.value, ast.Attribute) \
+                            and isinstance(node.func.value.value, ast.Name) and node.func.value.value.id == "self" \
+                            and node.func.value.attr == attr_name:
+                        users.append(f"{m.name}: self.{attr_name}.{node.func.attr}()")
+            n += 1
+            where = f"{init.file}:{init.node.lineno} {init.qualname}"
+            if users:
+                obs.append(Ob(f"E3.raw-state:{c.qualname}.{attr_name}", "E3.raw-state", where, "violation",
+                              f"`self.{attr_name} = {prm}` stores the constructor argument unconverted although it may be a str id "
+                              f"(it is handed on as a member proposition); {users[0]} then fails for "
+                              f"{c.name}(..., '{prm}' given as str): AttributeError, the model cannot be written",
+                              key=f"E3.raw-state:{c.qualname}.{attr_name}"))
+            else:
+                obs.append(Ob(f"E3.raw-state:{c.qualname}.{attr_name}", "E3.raw-state", where, "ok",
+                              f"self.{attr_name} stores `{prm}` as given, and no method is invoked on it"))
+    obs.append(Ob("E3.raw-state", "E3.raw-state", f"{len(family)} classes", "ok",
+                  f"{n} attributes that store a member-proposition argument as given; methods invoked on them are listed separately"))
+    return obs
+
+
 def writer_of(P, ci):
     return P.lookup_method(ci, "to_json")
 
@@ -127,6 +179,7 @@ def obligations(ctx):
     root = P.cls(FAMILY_ROOT)
     family = [c for c in P.subclasses(root)]
     r1, r2 = registries(ctx)
+    obs += raw_state_rule(ctx, family)
     name_of = lambda q: q.split(".")[-1]
     # ---------------------------------------------------------------- registry exhaustiveness
     for label, reg, classes in (("plog.from_json", r1, [c for c in family if c.module.name == PLOG]),
